@@ -27,7 +27,7 @@ Theorem single_member_is_standalone (cfg : mcfg) (I : ind NO) (key : string) (st
 Proof.
   cbn zeta. unfold alone_append, hx_append. cbn [h_mgrs h_members mapM].
   destruct (mgr_append NO cfg st new) as [st1|e]; cbn [bind]; [|reflexivity].
-  unfold hx_calculate, get_mgr. cbn [h_members foldM h_mgrs alist_get m_mgr m_ind].
+  unfold hx_calculate, hx_on_members, get_mgr. cbn [h_members foldM h_mgrs alist_get m_mgr m_ind sel].
   rewrite String.eqb_refl. cbn [of_opt bind].
   destruct (calculate NO I st1) as [st2|e]; cbn [bind]; [|reflexivity].
   cbn [alist_set h_mgrs h_members]. rewrite String.eqb_refl. reflexivity.
